@@ -28,6 +28,7 @@ values (map:keys, map:for-each, ?* , map:find) sorted.
 import EPV.Proto
 import EPV.Lemmas.MapArrayKeys
 import EPV.Lemmas.MapArrayHof
+import EPV.Spec.FOSort
 open EPV.Proto EPV.MapArray
 
 def showRat (r : Rat) : String := s!"{r.num}/{r.den}"
@@ -218,7 +219,7 @@ def showStatus : Option Err → String
   | none => "ok"
   | some e => showErr e
 
-def answer (line : String) : String :=
+def answerHist (line : String) : String :=
   let fs := fields line
   let alias := field fs "A" == "1"
   let opsStr := ((line.splitOn "OPS=").getD 1 "").splitOn ";" |>.filter (· ≠ "")
@@ -256,5 +257,32 @@ def answer (line : String) : String :=
         (mst', sst', ords', keys', bl', vals, blocks ++ [block]))
       (init, init, [], [], false, [], [])
     "|".intercalate blocks
+
+/-! phase 5: `XSORT K=<none|id|cnt|rev|head|const|intfirst|parity> M=<member>;<member>;…` with
+member = `e` (empty sequence) or keys joined by `+`.  Answer `<model>~<spec>~<keyOnSeqMember 0|1>`,
+model / spec = `ok:<member>;…` or `ERR:XPTY0004`. -/
+def parseKFn (s : String) : Option KFn :=
+  match s with
+  | "none" => some .none | "id" => some .ident | "cnt" => some .count | "rev" => some .rev
+  | "head" => some .head | "const" => some .const | "intfirst" => some .intFirst | "parity" => some .parity
+  | _ => none
+
+def showMembers : Except Err (List (List Key)) → String
+  | .error e => showErr e
+  | .ok ms => "ok:" ++ ";".intercalate (ms.map fun m => if m.isEmpty then "e" else "+".intercalate (m.map showKey))
+
+def answerSort (line : String) : String :=
+  let fs := fields line
+  let mstr := field fs "M"
+  let members := if mstr == "" then some [] else
+    (mstr.splitOn ";").mapM fun m => if m == "e" then some [] else (m.splitOn "+").mapM parseKey
+  match parseKFn (field fs "K"), members with
+  | some kf, some ms =>
+    showMembers (arrSortPy kf ms) ++ "~" ++ showMembers (Spec.arrSort kf ms) ++ "~" ++
+      (if keyOnSeqMember kf ms then "1" else "0")
+  | _, _ => "bad-xsort"
+
+def answer (line : String) : String :=
+  if line.startsWith "XSORT " then answerSort line else answerHist line
 
 def main : IO Unit := mainLoop answer
